@@ -65,6 +65,11 @@ def gen_cases(rng, tier):
     cases.append({"sources": [{"arg": a, "content": {"pat": pz, "len": 200 + 17 * k}} for k, (a, pz) in enumerate([("list.bas,a", eol), ("prog.bas", eol), ("data.csv", eol), ("bin.bin", eol), ("noext", eol),
                                                                                                              ("bom.bas,a", "efbbbf" + eol), ("LF.BAS,A", "0a0d0a0a"), ("cr.csv", "0d0d0a")])],
                   "verbose": False, "archive": "t.k7"})
+    # blanks at the ends of the name and of the extension are characters of the field like any other ("name padded to 8"): the field is the upper-cased text followed by blanks
+    blanks = [" intro.bas", "  x.bin", " list.bas,a", "a. b", "nm\t.bas", "in ner.csv", " .bas", "x.b ", "\tt.csv", " lead", "d+.x/ in.bas"]
+    cases.append({"sources": [{"arg": a, "content": {"pat": "4243", "len": 5 + 60 * k}} for k, a in enumerate(blanks)], "verbose": False, "archive": "t.k7"})
+    for k, a in enumerate(blanks):
+        cases.append({"sources": [{"arg": a, "content": {"pat": "42", "len": 1 + k}}], "verbose": k % 2 == 1, "archive": "t.k7"})
     nw = scale(tier, 40, 600)
     fixed_wide = ["stra\u00dfe.bas", "gru\u00df.csv", "\u00e9t\u00e9.bas,a", "\ufb01le.bin", "\u00c9T\u00c9.dat", "\u0149.bas", "a\u00dfb\u00dfc\u00dfd\u00df.bas", "\u00df", "\u00df.\u00df", "x.ba\u00df", "\ufb03.\ufb01", "d+.x/\u00df.csv"]
     for k, a in enumerate(fixed_wide):
@@ -72,7 +77,7 @@ def gen_cases(rng, tier):
     for _ in range(nw):
         cases.append({"wide": True, "sources": [{"arg": rng.choice(["", "", "s+/", "d+.x/"]) + gen_wide_name(rng), "content": gen_content(rng) if rng.random() < 0.5 else {"pat": "41", "len": rng.choice([0, 1, 254, 300])}}
                                                    for _ in range(rng.choice([1, 1, 2, 3]))], "verbose": rng.random() < 0.3, "archive": "t.k7"})
-    return cases, {"random": n, "capacity frontier (-3..+22 bytes)": nf, "fixed": 4, "names outside ASCII (oracle only)": nw + len(fixed_wide)}
+    return cases, {"random": n, "capacity frontier (-3..+22 bytes)": nf, "fixed": 4, "names with blanks at their ends": 12, "names outside ASCII (oracle only)": nw + len(fixed_wide)}
 
 
 def oracle(case, obs, ctx):
